@@ -169,7 +169,7 @@ func (p *pogsRun) viewOf(m *goMapping, s capnp.Struct) (*V, []string) {
 	return v, vc.errs
 }
 
-func (p *pogsRun) runValues(i uint64, rng *common.RNG)  { p.valueCase(i, rng, false) }
+func (p *pogsRun) runValues(i uint64, rng *common.RNG)   { p.valueCase(i, rng, false) }
 func (p *pogsRun) runMessages(i uint64, rng *common.RNG) { p.messageCase(i, rng, false) }
 func (p *pogsRun) runEmbed(i uint64, rng *common.RNG) {
 	if i%2 == 0 {
